@@ -31,8 +31,12 @@ def _deliveries(rng, pairs, k):
     return out
 
 
-def _wind_down(npay, rng, pairs, settle=True):
+def _wind_down(npay, rng, pairs, settle=True, signers=False):
     ops = [{"op": "hold_events", "node": n, "on": False} for n in sorted({x for p in pairs for x in p})]
+    if signers:
+        for a, b in pairs:
+            for (i, j) in ((a, b), (b, a)):
+                ops += [{"op": "signer_on", "node": i, "peer": j, "what": w} for w in ("point", "secret", "sign")]
     ops += [{"op": "reconnect", "a": a, "b": b} for a, b in pairs]
     ops.append({"op": "deliver_all"})
     for n in {x for p in pairs for x in p}:
@@ -923,7 +927,51 @@ def skim(rng):
     return {"cfg": c, "ops": ops}
 
 
-FAMILIES = {"skim": skim, "batchopen": batchopen, "discomplete": discomplete, "monbcast": monbcast, "staletwo": staletwo, "bigclaim": bigclaim, "dustclose": dustclose, "slots": slots, "asynccross": asynccross, "blockedjump": blockedjump, "feecross": feecross, "opendisc": opendisc, "chainsettle": chainsettle, "crosslimit": crosslimit, "evhold": evhold, "failwin": failwin, "fanin": fanin, "inflight": inflight, "holdcell": holdcell, "stalehold": stalehold}
+def asyncsign(rng):
+    """The channel signer of a node is remote and slow: fetching the next per-commitment point, releasing a
+    revocation secret or signing the counterparty's commitment is unavailable for a while, in any combination,
+    across updates, disconnections and monitor writes.  What needs the signer is held and must come out, in
+    protocol order and with the right content, once it is back (C01 / C05 / C09 judged by the same spec)."""
+    n = rng.choice([2, 2, 3])
+    pairs = [(i, i + 1) for i in range(n - 1)]
+    dirs = pairs + [(b, a) for (a, b) in pairs]
+    ops = []
+    npay = 0
+    off = set()
+    for _ in range(rng.randrange(6, 16)):
+        r = rng.random()
+        if r < 0.25:
+            a, b = rng.choice([(0, n - 1), (n - 1, 0)])
+            ops.append({"op": "send", "from": a, "to": b, "amt": rng.choice(["big", "justabove", "dust"])})
+            npay += 1
+        elif r < 0.55:
+            ops += _deliveries(rng, dirs, rng.randrange(1, 5))
+        elif r < 0.62 and npay:
+            ops.append({"op": rng.choice(["claim", "fail"]), "pay": rng.randrange(npay)})
+        elif r < 0.80:
+            i, j = rng.choice(dirs)
+            w = rng.choice(["point", "secret", "sign", "sign"])
+            ops.append({"op": "signer_off", "node": i, "peer": j, "what": w})
+            off.add((i, j, w))
+        elif r < 0.90 and off:
+            i, j, w = rng.choice(sorted(off))
+            off.discard((i, j, w))
+            ops.append({"op": "signer_on", "node": i, "peer": j, "what": w})
+        elif r < 0.94:
+            a, b = rng.choice(pairs)
+            ops += [{"op": "disconnect", "a": a, "b": b}, {"op": "reconnect", "a": a, "b": b}]
+        elif r < 0.97:
+            i = rng.randrange(n)
+            ops.append({"op": "persist_mode", "node": i, "mode": rng.choice(["inprogress", "completed"])})
+        else:
+            ops.append({"op": "complete", "node": rng.randrange(n), "which": rng.choice(["oldest", "all"])})
+        if rng.random() < 0.2:
+            ops.append({"op": "deliver_all"})
+    ops += _wind_down(npay, rng, pairs, signers=True)
+    return {"cfg": _cfg(rng, n), "ops": ops}
+
+
+FAMILIES = {"asyncsign": asyncsign, "skim": skim, "batchopen": batchopen, "discomplete": discomplete, "monbcast": monbcast, "staletwo": staletwo, "bigclaim": bigclaim, "dustclose": dustclose, "slots": slots, "asynccross": asynccross, "blockedjump": blockedjump, "feecross": feecross, "opendisc": opendisc, "chainsettle": chainsettle, "crosslimit": crosslimit, "evhold": evhold, "failwin": failwin, "fanin": fanin, "inflight": inflight, "holdcell": holdcell, "stalehold": stalehold}
 
 
 def make(rng, family, count):
